@@ -248,17 +248,16 @@ func genHandlers(c *genCtx) error {
 			}
 			o := sweepOpts{allBytes: c.thorough() && !base.edge, stop: !base.edge, rejectConts: conts, rejectAll: false}
 			if base.edge && !c.thorough() {
-				if rng.Intn(3) != 0 {
-					return // the quick tier takes a third of the transitions (which ones depends on the seed)
-				}
-				o.rejectConts = conts[:1]
+				o.rejectConts = conts[:1] // every transition is taken; fewer continuations and strategies per input
 			}
 			n := 0
 			forSweepInputs(ss, mem, base, o, rng, func(in []byte, viable bool) {
 				for _, kind := range kinds {
-					runHandle(c.sw, &w.j, kind, in, nil, zero, nil, st, "sw")
-					runHandle(c.sw, &w.j, kind, in, nil, exact, &w.used, st, "sw")
 					n++
+					runHandle(c.sw, &w.j, kind, in, nil, zero, nil, st, "sw")
+					if !base.edge || c.thorough() || n%3 == 0 {
+						runHandle(c.sw, &w.j, kind, in, nil, exact, &w.used, st, "sw")
+					}
 					if viable && (c.thorough() || n%8 == 0) {
 						// mixed strategies on (possibly completed) documents
 						runHandle(c.sw, &w.j, kind, in, []answer{zero, exact, zero, exact}, exact, nil, st, "sw")
